@@ -875,6 +875,8 @@ def _arg_depth(name: str, i: int, depth: int) -> int:
     or more (BoostMatrix: 42, EqualMassPhaseSpaceFactor: 20) is nested at most one level."""
     mults = size_model().get(name, (0, ()))[1]
     mult = mults[i] if i < len(mults) else 1
+    if name in {"MatrixMultiplication", "ArrayMultiplication"}:
+        mult = 10  # every factor may be a BoostMatrix (660 nodes): keep the factors shallow
     return min(depth - 1, 1) if mult >= 10 else depth - 1  # noqa: PLR2004
 
 
@@ -931,13 +933,31 @@ def instantiable() -> list[str]:
     return [n for n in recipes() if _minimal(n) is not None]
 
 
-def instances(max_depth: int = 3, max_size: int | None = 2500):
-    """Top-level strategy: class drawn uniformly, arguments nested up to `max_depth`; trees
-    whose *estimated* unfolded size exceeds `max_size` nodes are filtered out (a
-    ``BoostMatrix`` mentions its argument 42 times, so nesting multiplies quickly)."""
-    st = _st()
+def top_level_names(part: int | None = None, parts: int = 1) -> list[str]:
+    """Instantiable classes; with `part`, the classes ``names[part::parts]`` (each shard of a
+    check takes its own slice so that every class gets its share of the budget whatever
+    Hypothesis' internal preferences are). Never empty."""
     names = [n for n in recipes() if not instance(n, 1).is_empty]
-    strat = st.one_of(*[instance(n, max_depth) for n in names])
+    if part is None or parts <= 1:
+        return names
+    # classes with non-sympy fields first, so that they are spread over the shards
+    names = sorted(names, key=lambda n: (not nonsympy_fields(discover()[n]), n))
+    return names[part % parts :: parts] or names
+
+
+def instances(max_depth: int = 3, max_size: int | None = 2500, names: list[str] | None = None):
+    """Top-level strategy: class drawn uniformly from `names` (default: all; classes with
+    non-sympy fields -- the ones that get the decorator's own subs/xreplace -- count three times),
+    arguments nested up to `max_depth`; trees whose *estimated* unfolded size exceeds
+    `max_size` nodes are rejected (a ``BoostMatrix`` mentions its argument 42 times, so nesting
+    multiplies quickly)."""
+    st = _st()
+    if names is None:
+        names = top_level_names()
+    options = []
+    for n in names:
+        options += [instance(n, max_depth)] * (3 if nonsympy_fields(discover()[n]) else 1)
+    strat = st.one_of(*options)
     if max_size is None:
         return strat
 
@@ -1008,15 +1028,25 @@ def estimated_size(tree) -> int:
         return 1
     base, mults = size_model().get(tree[1], (10, ()))
     total = base
+    boost = 1.0
+    if "phsp_factor" in tree[3]:
+        # the model was measured with the default phase-space factor (PhaseSpaceFactor: every
+        # argument twice); PhaseSpaceFactorSWave repeats them 9, EqualMassPhaseSpaceFactor 20 times
+        other = size_model().get(tree[3]["phsp_factor"], (10, (2,)))
+        boost = max(1.0, max(other[1], default=2) / 2)
+        total += 2 * other[0]
     for i, arg in enumerate(tree[2]):
-        total += (mults[i] if i < len(mults) else 3) * estimated_size(arg)
+        total += int(boost * (mults[i] if i < len(mults) else 3)) * estimated_size(arg)
     factor = 1
     if tree[1] == "PoolSum":
         for _, vals in tree[3].get("indices", []):
             factor *= len(vals)
     for arg in tree[2]:
-        if arg[0] == "int" and tree[1] in {"FormFactor", "BlattWeisskopfSquared", "SphericalHankel1", "EnergyDependentWidth"}:
-            factor *= 1 + arg[1]
+        if tree[1] in {"FormFactor", "BlattWeisskopfSquared", "SphericalHankel1", "EnergyDependentWidth"}:
+            if arg[0] == "int":
+                factor *= max(1, arg[1])  # the polynomial Blatt-Weisskopf form grows linearly with L
+            elif arg[0] == "lsym":
+                factor *= 9  # symbolic L: Hankel-function form
     return total * factor
 
 
